@@ -36,7 +36,9 @@
                   emitted as JSON and replayed on the real objects. *)
 EXTENDS Integers, Sequences, FiniteSets, TLC, Json
 
-CONSTANTS MODE, WALKS, DEPTH, EMIT
+CONSTANTS MODE,     \* "bfs" | "walk"
+          WALK0,    \* walks are numbered WALK0+1 .. WALK0+WALKS (lets the driver split the generation over processes)
+          WALKS, DEPTH, EMIT
 
 VARIABLES c,       \* the abstract object (record, see Fresh)
           act,     \* the call that produced this state: [op, a, b, d, out, note]
@@ -217,11 +219,12 @@ IsStream(s) == s.obj = "claim" /\ s.kind = "stream"
 
 \* ================================================================ the calls
 Act(op, a, b, d) == [op |-> op, a |-> a, b |-> b, d |-> d]
-\* the calls enabled in s, grouped by operation
-Calls(s) ==
+\* the calls enabled in s, grouped by operation (pref: the kind a walk opens first; "any" = all four)
+Calls(s, pref) ==
   [op \in {"Open", "SetText", "SetNum", "SetBin", "FeeAmount", "FeeUnits", "FeeUpdate", "FeeAddr", "AddTag", "ExtendTags",
            "ClearTags", "AddLang", "ClearLangs", "AddLoc", "ClearLocs", "AddRef", "SetRef", "Sign", "Unsign", "Reload"} |->
-     CASE op = "Open"       -> IF s.obj = "claim" THEN {Act(op, k, "-", "-") : k \in Kinds} ELSE {}
+     CASE op = "Open"       -> IF s.obj # "claim" THEN {}
+                               ELSE {Act(op, k, "-", "-") : k \in IF s.kind = "none" /\ pref # "any" THEN {pref} ELSE Kinds}
        [] op = "SetText"    -> {Act(op, f, t, "-") : f \in TextOf(s), t \in TextIds}
        [] op = "SetNum"     -> UNION {{Act(op, f, i, "-") : i \in NumPool(f)} : f \in NumOf(s)}
        [] op = "SetBin"     -> UNION {{Act(op, f, b, "-") : b \in BinPool(f)} : f \in BinOf(s)}
@@ -330,18 +333,27 @@ Decode(o, d) ==
 
 \* ================================================================ behaviour
 NoAct == [op |-> "New", a |-> "-", b |-> "-", d |-> "-", out |-> "ok", note |-> ""]
-ObjOfWalk(t) == IF t % 8 = 0 THEN "support" ELSE IF t % 8 = 4 THEN "purchase" ELSE "claim"
+ObjOfWalk(t) == IF t % 16 = 0 THEN "support" ELSE IF t % 16 = 8 THEN "purchase" ELSE "claim"
+\* walks: half of the claims become streams (most fields), the rest rotate through the other kinds
+KindOfWalk(t) == IF t % 2 = 1 THEN "stream" ELSE <<"channel", "repost", "collection", "stream">>[((t \div 2) % 4) + 1]
+\* walks pick an operation by weight, then one of its enabled calls uniformly
+Weight(s, op) == IF op \in {"Reload", "Sign", "Unsign"} THEN 1
+                 ELSE IF op = "Open" THEN (IF s.kind = "none" THEN 6 ELSE 1)
+                 ELSE IF op \in {"ClearTags", "ClearLangs", "ClearLocs"} THEN 1
+                 ELSE IF op \in {"SetNum", "FeeAmount", "FeeUnits", "FeeUpdate", "FeeAddr", "SetBin"} THEN 4 ELSE 3
 Init == /\ steps = 0 /\ act = NoAct
-        /\ IF MODE = "walk" THEN tid \in 1..WALKS /\ c = Fresh(ObjOfWalk(tid))
+        /\ IF MODE = "walk" THEN tid \in (WALK0 + 1)..(WALK0 + WALKS) /\ c = Fresh(ObjOfWalk(tid))
            ELSE tid = 0 /\ c \in {Fresh(o) : o \in {"claim", "support", "purchase"}}
 Do(x) == LET r == Step(c, x) IN
          /\ c' = r.s
          /\ act' = [op |-> x.op, a |-> x.a, b |-> x.b, d |-> x.d, out |-> r.out, note |-> r.note]
          /\ steps' = steps + 1 /\ UNCHANGED tid
 Next == /\ steps < DEPTH
-        /\ LET calls == Calls(c)  ops == {op \in DOMAIN calls : calls[op] # {}} IN
+        /\ LET calls == Calls(c, IF MODE = "walk" THEN KindOfWalk(tid) ELSE "any")
+               ops == {op \in DOMAIN calls : calls[op] # {}} IN
            IF MODE = "walk"
-           THEN \E op \in {RandomElement(ops)} : \E x \in {RandomElement(calls[op])} : Do(x)
+           THEN \E pick \in {RandomElement(UNION {{<<op, k>> : k \in 1..Weight(c, op)} : op \in ops})} :
+                  \E x \in {RandomElement(calls[pick[1]])} : Do(x)
            ELSE \E op \in ops : \E x \in calls[op] : Do(x)
 Spec == Init /\ [][Next]_vars
 
@@ -406,4 +418,10 @@ Out == [tid |-> tid, i |-> steps, act |-> act,
         refs |-> c.refs, ref |-> c.ref, signed |-> c.signed, chan |-> c.chan, sig |-> c.sig,
         nbytes_over_msg |-> Len(ToBytes(c)) - Len(Msg(c))]
 Emit == EMIT => PrintT(<<"STEP", ToJson(Out)>>)
+\* the pool definitions, printed once, so that the driver builds its concrete inputs from THIS text
+AllIds(prefix, n) == {prefix \o ToString(i) : i \in 1..n}
+PoolDefs == [tags |-> [g \in AllIds("g", 16) |-> TagDef(g)], amts |-> [a \in AllIds("a", 13) |-> AmtDef(a)],
+             langs |-> [n \in AllIds("n", 6) |-> LangDef(n)], coords |-> [k \in AllIds("k", 9) \cup {"k0"} |-> CoordDef(k)],
+             locs |-> [l \in AllIds("L", 9) |-> LocDef(l)]]
+ASSUME EMIT => PrintT(<<"POOLS", ToJson(PoolDefs)>>)
 =============================================================================
